@@ -221,17 +221,21 @@ def optimize_counted(p, limit):
 SNAPSHOT = False  # C12 switches this on: deep structural picture of the argument before / after optimize
 
 
-def snapshot(p):
-    """Deep structural picture of a predicate: classes, fields, set contents."""
+def snapshot(p, _path=()):
+    """Deep structural picture of a predicate: classes, fields, set contents (a node met again on the path from the root -- a
+    resolved self-reference -- is recorded as such, not followed)."""
     from predicate.predicate import Predicate
 
     if isinstance(p, Predicate):
+        if id(p) in _path:
+            return ("cycle", type(p).__name__, _path.index(id(p)))
         d = getattr(p, "__dict__", {})
-        return (type(p).__name__, tuple((k, snapshot(v)) for k, v in sorted(d.items()) if k != "frame"))
+        path = _path + (id(p),)
+        return (type(p).__name__, tuple((k, snapshot(v, path)) for k, v in sorted(d.items()) if k != "frame"))
     if isinstance(p, (set, frozenset)):
         return ("set", tuple(sorted(map(repr, p))))
     if isinstance(p, (list, tuple)):
-        return (type(p).__name__, tuple(snapshot(x) for x in p))
+        return (type(p).__name__, tuple(snapshot(x, _path) for x in p))
     if callable(p):
         return ("fn", id(p))
     return ("v", repr(p))
